@@ -46,6 +46,7 @@ CONSTANTS
   OptIdx = {optidx}
   SecSel = {secs}
   QuestionSel = {qsel}
+  QMax = {qmax}
 INVARIANT Emit
 CHECK_DEADLOCK FALSE
 """
@@ -61,7 +62,7 @@ def tset(xs):
 def gen_cfg(ctx, name, **kw):
     d = dict(opcodes=tset([0]), maxrecs=2, names=tset([2, 3, 4]), targets=tset([2, 4]), kinds=tset(["A", "NS"]),
              forms=tset(ALL_FORMS), edns=tset(["off"]), rcodes=tset([0]), bits=tset([256]), origins=tset([False]),
-             ttls="TtlOne", txt=tset([]), txtn=tset([1]), big=tset([]), ids=tset([4660]), pads=tset([0]), zcls=tset([1]), maxes=tset([65535]), optidx=tset([0]), secs=tset([1, 2, 3]), qsel=tset([True, False]))
+             ttls="TtlOne", txt=tset([]), txtn=tset([1]), big=tset([]), ids=tset([4660]), pads=tset([0]), zcls=tset([1]), maxes=tset([65535]), optidx=tset([0]), secs=tset([1, 2, 3]), qsel=tset([True, False]), qmax=1)
     d.update(kw)
     return ctx.cfg(name, GEN_CFG.format(**d))
 
